@@ -263,6 +263,44 @@ Example C03_harm_nonvacuous :
             s_pop s = [2] /\ map (@r_gen nat nat) (s_log s) = [0; 1].
 Proof. eexists. vm_compute. repeat split. Qed.
 
+(* ---------------- known finding: "exactly once for each individual", literally ---------------- *)
+(* Full statement (for EVERY initial population, without the distinctness hypothesis):
+     forall st pop, init_ok st pop ->
+       exists log, s_calls (gen0 (init st pop)) = [log] /\ NoDup (map fst log).
+   It is refuted by the faithful model: an unevaluated object listed twice in the caller's list is
+   evaluated once per occurrence (invalid_ind is built per list position).  The witness is replayed
+   on the implementation on every run (known_findings/C03.json,
+   signature C03.duplicate_invalid_object_evaluated_twice). *)
+Theorem C03_calls_gen0_each_once_refuted :
+  exists (st : @store nat nat) (pop : list uid),
+    init_ok (fun g : nat => g) st pop /\
+    exists log, s_calls (gen0 (fun g : nat => g) Nat.leb (init st pop)) = [log] /\
+                ~ NoDup (map fst log) /\
+                map (@r_nevals nat nat) (s_log (gen0 (fun g : nat => g) Nat.leb (init st pop))) = [2].
+Proof.
+  exists (upd empty_store 0 (mkind 5 None)), [0; 0]. split.
+  - assert (H : honest (fun g : nat => g) (upd empty_store 0 (mkind 5 None)) 0)
+      by (exists (mkind 5 None); split; [reflexivity|left; reflexivity]).
+    unfold init_ok. apply Forall_cons; [exact H|apply Forall_cons; [exact H|apply Forall_nil]].
+  - eexists. split; [vm_compute; reflexivity|]. split; [|vm_compute; reflexivity].
+    cbn. intro H. inversion H as [|? ? N _]; subst. apply N. left; reflexivity.
+Qed.
+Print Assumptions C03_calls_gen0_each_once_refuted.
+
+(* proved on the complement of the signature: when the initially invalid individuals are distinct
+   objects, each of them is evaluated exactly once (and nobody else) *)
+Theorem C03_calls_gen0_each_once_partial : forall (G F : Type) (evaluate : G -> F) (fle : F -> F -> bool)
+    (st : @store G F) (pop : list uid),
+  NoDup (invalid_of st pop) ->
+  exists log, s_calls (gen0 evaluate fle (init st pop)) = [log] /\
+              map fst log = invalid_of st pop /\ NoDup (map fst log).
+Proof.
+  intros G F evaluate fle st pop N.
+  destruct (gen0_calls evaluate fle st pop) as [log [r [E1 [_ [E3 [_ [_ [_ E7]]]]]]]].
+  exists log. auto.
+Qed.
+Print Assumptions C03_calls_gen0_each_once_partial.
+
 (* ---------------- the correspondence runner validates the hypotheses ---------------- *)
 (* If Corr.C03.check accepts a recorded run of the implementation, the hypotheses of the theorems
    above hold for that run (so their conclusions hold for the model state that was compared with the
@@ -307,3 +345,41 @@ Theorem C03_corr_validates_harm : forall ngen p w cxpb mutpb nbr objs pop gens o
             length gens = ngen /\ state_matches s oc ol os ofin = true /\ oi = true.
 Proof. exact check_harm_validates. Qed.
 Print Assumptions C03_corr_validates_harm.
+
+(* End to end: for every recorded run of the implementation that the runner accepts, the model state
+   that agrees with everything observed on the implementation satisfies the invariants. *)
+Theorem C03_accepted_simple_run : forall ngen p w mu lam objs pop gens oc ol os ofin oi,
+  check (CLoop KSimple ngen p w mu lam objs pop gens oc ol os ofin oi) = true ->
+  let s := ea_simple (ev_fun p) (wfle w) (add_objs empty_store objs) pop (map to_ans gens) in
+  InvC (ev_fun p) s /\ InvH (ev_fun p) (wfle w) s /\
+  length (s_log s) = S ngen /\ length (s_pop s) = length pop /\
+  state_matches s oc ol os ofin = true.
+Proof. exact accepted_simple_run. Qed.
+Print Assumptions C03_accepted_simple_run.
+
+Theorem C03_accepted_plus_run : forall ngen p w mu lam objs pop gens oc ol os ofin oi,
+  check (CLoop KPlus ngen p w mu lam objs pop gens oc ol os ofin oi) = true ->
+  let s := ea_plus (ev_fun p) (wfle w) (add_objs empty_store objs) pop (map to_ans gens) in
+  InvC (ev_fun p) s /\ InvH (ev_fun p) (wfle w) s /\
+  length (s_log s) = S ngen /\ length (s_pop s) = match ngen with 0 => length pop | _ => mu end /\
+  state_matches s oc ol os ofin = true.
+Proof. exact accepted_plus_run. Qed.
+Print Assumptions C03_accepted_plus_run.
+
+Theorem C03_accepted_comma_run : forall ngen p w mu lam objs pop gens oc ol os ofin oi,
+  check (CLoop KComma ngen p w mu lam objs pop gens oc ol os ofin oi) = true ->
+  let s := ea_comma (ev_fun p) (wfle w) (add_objs empty_store objs) pop (map to_ans gens) in
+  InvC (ev_fun p) s /\ InvH (ev_fun p) (wfle w) s /\
+  length (s_log s) = S ngen /\ length (s_pop s) = match ngen with 0 => length pop | _ => mu end /\
+  state_matches s oc ol os ofin = true.
+Proof. exact accepted_comma_run. Qed.
+Print Assumptions C03_accepted_comma_run.
+
+Theorem C03_accepted_harm_run : forall ngen p w cxpb mutpb nbr objs pop gens oc ol os ofin oi,
+  check (CHarm ngen p w cxpb mutpb nbr objs pop gens oc ol os ofin oi) = true ->
+  exists s, ea_harm (ev_fun p) (wfle w) cxpb mutpb nbr (add_objs empty_store objs) pop gens = Ok s /\
+    InvC (ev_fun p) s /\ InvH (ev_fun p) (wfle w) s /\
+    length (s_log s) = S ngen /\ length (s_pop s) = length pop /\
+    state_matches s oc ol os ofin = true.
+Proof. exact accepted_harm_run. Qed.
+Print Assumptions C03_accepted_harm_run.
